@@ -5,7 +5,7 @@ proto-precision, fhir-helpers, narrow.  TLC checks the laws of spec/FPLiterals.t
 case pools and emits the cases (C15_MC), the Go harness replays them against the real code,
 TLC judges the observations (C15_Judge).  Python only orchestrates and counts."""
 import copy
-from lib import driver as D
+from lib import driver as D, machine as M
 
 MUTANTS = ["dropLoneBackslash", "noUnicodeEscape", "timeKeepsHiddenFraction", "narrowOffByOne"]
 FAMILIES = ["lit-string", "lit-decimal", "lit-temporal", "proto-precision", "fhir-helpers", "narrow"]
@@ -43,6 +43,8 @@ def run(ctx):
     evaluations = sum(o.get("calls", 1) for o in obs)
     keys = [nontrivial_key(o) for o in obs]
     step = max(1, len(obs) // 5)
+    # the literals of the whole abstract machine (each is a program of its own: the text denotes the item; lib/machine.py)
+    verdicts = M.extend(ctx, verdicts, by_id)
     return D.finish(ctx, verdicts, by_id, evaluations=evaluations,
                     rule="distinct = (family, sub-family, shape class of the case: token kinds of a string body / precision, "
                          "fraction digits and offset form of a temporal text / digit count of a number / element kind and "
